@@ -20,6 +20,7 @@ Import ListNotations.
 From TI Require Import model.Query model.QuerySpec proofs.QueryReadProofs proofs.QueryParseProofs
   proofs.QueryGetProofs proofs.QueryEndProofs.
 From TI Require Import model.QueryInit proofs.QueryInitProofs.
+From TI Require Import model.QueryFlush proofs.QueryFlushProofs.
 From TI Require gen.QuerySrc proofs.QuerySrcTie.
 Open Scope Z_scope.
 
@@ -493,6 +494,113 @@ Theorem C12_flush_only_when_echo_refuted :
       = exp_name_version cfg p.
 Proof. exact flush_if_echo_refuted_exists. Qed.
 Print Assumptions C12_flush_only_when_echo_refuted.
+
+(** *** WHEN a reply arrives relative to the library's own steps, and WHERE the discard of unread
+    input sits relative to the write of the request
+
+    model/QueryFlush.v: [query_F pos] mirrors query_terminal step by step with the POSITION of the
+    discard explicit — [flush_before] = the code (tcsetattr(TCSAFLUSH) ; write_tty ; read_tty),
+    [flush_after_write] = the excluded order (tcsetattr(TCSADRAIN) ; write_tty ;
+    tcflush(TCIFLUSH) ; read_tty).  A reply arrives [d] ticks after write_tty() has returned,
+    [d >= 0] ARBITRARY ([timely]: in order, inside the margin), while every later step of the
+    library costs an arbitrary [0 <= cost i <= c]: [d = 0] is the instant the write returns —
+    before the library's next tty call —, [d] below the cost of the next step is "during that
+    step", larger [d] is "during the read".  Because the discard PRECEDES the write, no reply can
+    be discarded, wherever it lands: *)
+
+(** the code is the [flush_before] order *)
+Theorem C12_query_flush_precedes_write :
+  forall cost cfg term more request s,
+    query_F cost cfg term flush_before more request s
+    = query_A cost cfg term always_flush more request s.
+Proof. exact query_F_before. Qed.
+Print Assumptions C12_query_flush_precedes_write.
+
+(** the five end-to-end statements (one theorem: colours, name/version, cell size, kitty support,
+    automatic style), each for replies arriving at ANY point after the request is written *)
+Theorem C12_getters_report_profile_any_arrival_point :
+  forall cost c, (forall i, 0 <= cost i <= c) ->
+    forall cfg, enabled cfg = true -> 0 < qtimeout cfg ->
+    forall p, wf_profile p = true ->
+    (forall delays s D,
+      arrived_all (core s) -> timely c cfg (profile_terminal p delays) FGBG_request D ->
+      exists s',
+        get_fg_bg_F cost cfg (profile_terminal p delays) flush_before s = (Some (exp_fg_bg cfg p), s') /\
+        pend (core s') = [] /\ attr s' = attr s /\
+        written (core s') = written (core s) ++ [FGBG_request] /\
+        now (core s) <= now (core s') <= now (core s) + qtimeout cfg
+          + c * (Z.of_nat (length (stream (profile_terminal p delays FGBG_request))) + 4)) /\
+    (forall delays s D,
+      arrived_all (core s) -> timely c cfg (profile_terminal p delays) XTV_request D ->
+      exists s',
+        get_name_version_F cost cfg (profile_terminal p delays) flush_before s = (exp_name_version cfg p, s') /\
+        pend (core s') = [] /\ attr s' = attr s /\
+        written (core s') = written (core s) ++ [XTV_request] /\
+        now (core s) <= now (core s') <= now (core s) + qtimeout cfg
+          + c * (Z.of_nat (length (stream (profile_terminal p delays XTV_request))) + 4)) /\
+    (forall delays c0 s D,
+      cache_hit cfg c0 = false -> 0 < ws_cols cfg -> 0 < ws_rows cfg ->
+      arrived_all (core s) -> timely c cfg (profile_terminal p delays) CELL_request D ->
+      exists c1 s',
+        get_cell_size_F cost cfg (profile_terminal p delays) flush_before c0 s = (exp_cell cfg p, c1, s') /\
+        pend (core s') = (if cell_query_needed cfg c0 then [] else pend (core s)) /\
+        attr s' = attr s /\
+        now (core s) <= now (core s') <= now (core s) + qtimeout cfg + 2 * c) /\
+    (forall delays s D1 D2,
+      arrived_all (core s) ->
+      timely c cfg (profile_terminal p delays) XTV_request D1 ->
+      timely c cfg (profile_terminal p delays) KITTY_request D2 ->
+      exists s',
+        kitty_is_supported_F cost cfg (profile_terminal p delays) flush_before (s, None)
+        = (exp_kitty cfg p, (s', Some (exp_name_version cfg p))) /\
+        pend (core s') = [] /\ attr s' = attr s /\
+        now (core s) <= now (core s') <= now (core s) + 2 * qtimeout cfg
+          + c * (Z.of_nat (length (stream (profile_terminal p delays XTV_request))) + 6)) /\
+    (forall delays s D1 D2,
+      arrived_all (core s) ->
+      timely c cfg (profile_terminal p delays) XTV_request D1 ->
+      timely c cfg (profile_terminal p delays) KITTY_request D2 ->
+      exists s',
+        auto_image_class_F cost cfg (profile_terminal p delays) flush_before (s, None)
+        = (Some (exp_auto cfg p), (s', Some (exp_name_version cfg p))) /\
+        pend (core s') = [] /\ attr s' = attr s /\
+        now (core s) <= now (core s') <= now (core s) + 2 * qtimeout cfg
+          + c * (Z.of_nat (length (stream (profile_terminal p delays XTV_request))) + 6)).
+Proof. exact getters_report_profile_any_point. Qed.
+Print Assumptions C12_getters_report_profile_any_arrival_point.
+
+(** EXCLUDED order — discard the unread input AFTER the request has been written: every reply
+    that arrives in the window between write_tty() returning and the end of the flush step is
+    discarded with it; the query comes back EMPTY after the whole timeout (and the getters
+    report their fall-backs) although the terminal answered correctly and at once *)
+Theorem C12_flush_after_write_loses_replies_in_window :
+  forall cost cfg term more request s,
+    (forall i, 0 <= cost i) -> enabled cfg = true -> 0 < qtimeout cfg -> more [] = true ->
+    arrived_all (core s) ->
+    Forall (fun u => fst u <= cost (S (tick (core s)))) (term request) ->
+    exists s',
+      query_F cost cfg term flush_after_write more request s = (Some [], s') /\
+      pend (core s') = [] /\ attr s' = attr s /\
+      written (core s') = written (core s) ++ [request] /\
+      now (core s') = now (core s) + cost (tick (core s)) + cost (S (tick (core s))) + qtimeout cfg
+                      + cost (S (S (tick (core s)))).
+Proof. exact flush_after_write_loses_window. Qed.
+Print Assumptions C12_flush_after_write_loses_replies_in_window.
+
+(** ... so it does not report what the terminal said (witness: kitty 0.26.5 answering at once,
+    XTVERSION at the instant the write returns, DA1 one tick later, the flush step costing one
+    tick -> (None, None)); the code does *)
+Theorem C12_flush_after_write_refuted :
+  exists cfg p delays D,
+    enabled cfg = true /\ 0 < qtimeout cfg /\ wf_profile p = true /\
+    timely 1 cfg (profile_terminal p delays) XTV_request D /\
+    Forall (fun u => 0 <= fst u <= 1) (profile_terminal p delays XTV_request) /\
+    fst (get_name_version_F (fun _ => 1) cfg (profile_terminal p delays) flush_after_write (ttyA_init cooked []))
+      <> exp_name_version cfg p /\
+    fst (get_name_version_F (fun _ => 1) cfg (profile_terminal p delays) flush_before (ttyA_init cooked []))
+      = exp_name_version cfg p.
+Proof. exact flush_after_write_refuted_exists. Qed.
+Print Assumptions C12_flush_after_write_refuted.
 
 (** *** the colour-component scaling tied to the source as a theorem (T): the element expression
     of [x_parse_color]'s comprehension is translated from [_ctlseqs.py] on every run into
